@@ -60,53 +60,68 @@ fn dump(q: &Qbvh<u32>, sh: &mut Shadow, op: &str, ret: usize, out: &mut String) 
 
 fn rd_box(a: &mut Args) -> Aabb { Aabb::new(d3::p(a), d3::p(a)) }
 
+/// replays a history; returns the final tree and the dump text; `None` tree on panic
+fn replay(a: &mut Args, with_dump: bool) -> (Option<Qbvh<u32>>, String) {
+    let nops = a.u();
+    let mut q: Qbvh<u32> = Qbvh::new();
+    let mut ws = QbvhUpdateWorkspace::default();
+    let mut cur: Vec<Aabb> = Vec::new();
+    let mut sh = Shadow::default();
+    let mut out = String::new();
+    for _ in 0..nops {
+        let op = a.tok().to_string();
+        let mut ret = 0usize;
+        let r = catch_unwind(AssertUnwindSafe(|| {
+            match op.as_str() {
+                "I" => {
+                    let id = a.u(); let b = rd_box(a);
+                    if cur.len() <= id { cur.resize(id + 1, Aabb::new_invalid()); }
+                    cur[id] = b;
+                    q.pre_update_or_insert(id as u32);
+                }
+                "R" => { let id = a.u(); ret = q.remove(id as u32).is_some() as usize; }
+                "F" => {
+                    let m = a.f();
+                    let c = &cur;
+                    ret = q.refit(m, &mut ws, |d: &u32| c.get(*d as usize).copied().unwrap_or_else(Aabb::new_invalid));
+                }
+                "B" => { let m = a.f(); q.rebalance(m, &mut ws); }
+                "C" => {
+                    let n = a.u();
+                    let mut items = Vec::new();
+                    for _ in 0..n { let id = a.u(); let b = rd_box(a); items.push((id as u32, b)); }
+                    let dil = a.f();
+                    for (id, b) in &items {
+                        let id = *id as usize;
+                        if cur.len() <= id { cur.resize(id + 1, Aabb::new_invalid()); }
+                        cur[id] = *b;
+                    }
+                    q.clear_and_rebuild(items.into_iter(), dil);
+                }
+                _ => panic!("bad op"),
+            }
+        }));
+        if r.is_err() { out.push_str("PANIC ;"); return (None, out); }
+        if with_dump { dump(&q, &mut sh, &op, ret, &mut out); out.push(' '); }
+    }
+    (Some(q), out.trim_end().to_string())
+}
+
 pub fn exec(func: &str, a: &mut Args) -> String {
     match func {
-        "hist" => {
-            let nops = a.u();
-            let mut q: Qbvh<u32> = Qbvh::new();
-            let mut ws = QbvhUpdateWorkspace::default();
-            let mut cur: Vec<Aabb> = Vec::new();
-            let mut sh = Shadow::default();
-            let mut out = String::new();
-            for _ in 0..nops {
-                let op = a.tok().to_string();
-                let mut ret = 0usize;
-                let r = catch_unwind(AssertUnwindSafe(|| {
-                    match op.as_str() {
-                        "I" => {
-                            let id = a.u(); let b = rd_box(a);
-                            if cur.len() <= id { cur.resize(id + 1, Aabb::new_invalid()); }
-                            cur[id] = b;
-                            q.pre_update_or_insert(id as u32);
-                        }
-                        "R" => { let id = a.u(); ret = q.remove(id as u32).is_some() as usize; }
-                        "F" => {
-                            let m = a.f();
-                            let c = &cur;
-                            ret = q.refit(m, &mut ws, |d: &u32| c.get(*d as usize).copied().unwrap_or_else(Aabb::new_invalid));
-                        }
-                        "B" => { let m = a.f(); q.rebalance(m, &mut ws); }
-                        "C" => {
-                            let n = a.u();
-                            let mut items = Vec::new();
-                            for _ in 0..n { let id = a.u(); let b = rd_box(a); items.push((id as u32, b)); }
-                            let dil = a.f();
-                            for (id, b) in &items {
-                                let id = *id as usize;
-                                if cur.len() <= id { cur.resize(id + 1, Aabb::new_invalid()); }
-                                cur[id] = *b;
-                            }
-                            q.clear_and_rebuild(items.into_iter(), dil);
-                        }
-                        _ => panic!("bad op"),
-                    }
-                }));
-                if r.is_err() { out.push_str("PANIC ;"); break; }
-                dump(&q, &mut sh, &op, ret, &mut out);
-                out.push(' ');
+        // `hist`: model-compared; `histo`: same dump, oracle only (operations the model does not cover yet)
+        "hist" | "histo" => replay(a, true).1,
+        "query" => {
+            let (q, _) = replay(a, false);
+            let b = rd_box(a);
+            match q {
+                None => "PANIC".into(),
+                Some(q) => {
+                    let mut out = Vec::new();
+                    q.intersect_aabb(&b, &mut out);
+                    out.iter().map(|x| x.to_string()).collect::<Vec<_>>().join(" ")
+                }
             }
-            out.trim_end().to_string()
         }
         _ => "nofn".into(),
     }
@@ -123,6 +138,28 @@ impl Hist {
     fn rem(&mut self, id: usize) { self.ops.push(format!("R {}", id)); self.live[id] = false; }
     fn refit(&mut self, m: f64) { self.ops.push(format!("F {}", hx(m))); }
     fn finish(self) -> (String, String) { ("hist".into(), format!("{} {}", self.ops.len(), self.ops.join(" "))) }
+    fn args(&self) -> String { format!("{} {}", self.ops.len(), self.ops.join(" ")) }
+    fn rebalance(&mut self, m: f64) { self.ops.push(format!("B {}", hx(m))); }
+    fn rebuild(&mut self, items: &[(usize, Aabb)], dil: f64) {
+        let mut s = format!("C {}", items.len());
+        for l in self.live.iter_mut() { *l = false; }
+        for (id, b) in items { s += &format!(" {} {}", id, hb(b)); self.live[*id] = true; self.boxes[*id] = *b; }
+        s += &format!(" {}", hx(dil));
+        self.ops.push(s);
+    }
+    /// query boxes for the final state: around live leaves, random, everything
+    fn queries(&self, r: &mut Rng, lat: bool, n: usize) -> Vec<(String, String)> {
+        let live: Vec<usize> = (0..self.live.len()).filter(|i| self.live[*i]).collect();
+        let mut v = Vec::new();
+        for k in 0..n {
+            let qb = if k == 0 || live.is_empty() { Aabb::new(d3::Point::new(-1e3, -1e3, -1e3), d3::Point::new(1e3, 1e3, 1e3)) }
+                else if r.below(4) == 0 { gen_box(r, 0, lat) }
+                else { let b = self.boxes[*r.pick(&live)];
+                       match r.below(3) { 0 => b, 1 => moved(r, &b, lat), _ => Aabb::new(b.maxs, b.maxs) } };  // touching at a corner
+            v.push(("query".to_string(), format!("{} {}", self.args(), hb(&qb))));
+        }
+        v
+    }
 }
 
 /// box families: 0 random, 1 identical, 2 degenerate (points / flat), 3 nested around the origin, 4 lattice grid cells
@@ -145,7 +182,10 @@ fn moved(r: &mut Rng, b: &Aabb, lat: bool) -> Aabb {
     Aabb::new(b.mins + s, b.maxs + s)
 }
 
-fn random_history(r: &mut Rng, maxops: usize, lat: bool) -> (String, String) {
+fn random_history(r: &mut Rng, maxops: usize, lat: bool) -> (String, String) { random_history_h(r, maxops, lat, false).finish() }
+
+/// `full = true`: also `rebalance` (always right after a refit, as its documentation requires) and `clear_and_rebuild`
+fn random_history_h(r: &mut Rng, maxops: usize, lat: bool, full: bool) -> Hist {
     let nids = *r.pick(&[3usize, 6, 17, 20, 40, 64]);
     let fam = r.below(6);
     let nops = 1 + r.below(maxops as u64) as usize;
@@ -173,13 +213,27 @@ fn random_history(r: &mut Rng, maxops: usize, lat: bool) -> (String, String) {
             let m = gen_margin(r, lat); h.refit(m);
         }
         if refit_often == 0 && r.below(3) == 0 && h.ops.len() < nops { let m = gen_margin(r, lat); h.refit(m); }
+        if full && r.below(8) == 0 {
+            if r.below(3) != 0 {
+                let m = gen_margin(r, lat); h.refit(m); h.rebalance(m);
+            } else {
+                let n = r.below(nids as u64 + 1) as usize;
+                let mut ids: Vec<usize> = (0..nids).collect();
+                for i in 0..ids.len() { let j = i + r.below((ids.len() - i) as u64) as usize; ids.swap(i, j); }
+                let f = if fam == 5 { r.below(5) } else { fam };
+                let items: Vec<(usize, Aabb)> = ids[..n].iter().map(|i| (*i, gen_box(r, f, lat))).collect();
+                let dil = if r.bool() { 0.0 } else { *r.pick(&[0.0, 0.01, 0.25]) };
+                h.rebuild(&items, dil);
+            }
+        }
     }
-    if r.bool() { let m = gen_margin(r, lat); h.refit(m); }
-    h.finish()
+    if r.bool() || full { let m = gen_margin(r, lat); h.refit(m); }
+    h
 }
 
 /// fill the four root lanes (16 leaves), optionally refit, then overflow → root split; then variations
-fn root_split_history(r: &mut Rng, variant: u64, lat: bool) -> (String, String) {
+fn root_split_history(r: &mut Rng, variant: u64, lat: bool) -> (String, String) { root_split_history_h(r, variant, lat).finish() }
+fn root_split_history_h(r: &mut Rng, variant: u64, lat: bool) -> Hist {
     let mut h = Hist::new(64);
     let fam = r.below(5);
     let first = 16 + r.below(3) as usize;
@@ -193,7 +247,7 @@ fn root_split_history(r: &mut Rng, variant: u64, lat: bool) -> (String, String) 
     }
     let m = gen_margin(r, lat); h.refit(m);
     if r.bool() { for id in 0..4 { h.rem(id); } let m = gen_margin(r, lat); h.refit(m); }
-    h.finish()
+    h
 }
 
 /// insert everything, remove everything, insert again (slot reuse), refits in between
@@ -218,6 +272,21 @@ pub fn gen(r: &mut Rng, thorough: bool) -> Vec<(String, String)> {
     for it in 0..nstruct {
         for variant in 0..10 { v.push(root_split_history(r, variant, it % 2 == 0)); }
         v.push(drain_history(r, it % 2 == 0));
+    }
+    // traversal on the final state (histories ending with a refit) against brute force
+    let nq = if thorough { 400 } else { 60 };
+    for it in 0..nq {
+        let lat = it % 2 == 0;
+        let var = r.below(10);
+        let mut h = if it % 3 == 0 { root_split_history_h(r, var, lat) } else { random_history_h(r, maxops, lat, false) };
+        let m = gen_margin(r, lat); h.refit(m);
+        v.extend(h.queries(r, lat, 3));
+    }
+    // histories with rebalance / clear_and_rebuild: not modelled yet, invariant oracle on the dumped Rust state only
+    let nfull = if thorough { 600 } else { 100 };
+    for it in 0..nfull {
+        let h = random_history_h(r, maxops, it % 2 == 0, true);
+        v.push(("histo".to_string(), h.args()));
     }
     v
 }
